@@ -28,8 +28,45 @@ NBUILT = dict(quick=30, thorough=1200)
 NRANDOM = dict(quick=25, thorough=500)
 
 
+NMIXED = dict(quick=12, thorough=48)
+
+
 def units(tier, seed):
-    return [dict(name=f'data:{n}', logic=n) for n in lib.STATIC_LOGICS]
+    # per-logic units, plus units that export models of MANY logics in one process in seeded orders (class-level state
+    # shared along the model classes' inheritance chains is only visible across logics)
+    return [dict(name=f'data:{n}', logic=n) for n in lib.STATIC_LOGICS] + \
+           [dict(name=f'mixed:{k}', logic=None, k=k) for k in range(NMIXED[tier])]
+
+
+def run_mixed(unit, out, tier, seed):
+    k = unit['k']
+    rng = random.Random(f'{seed}:mixed:{k}')
+    names = [n for n in lib.STATIC_LOGICS if n in lib.logic_names()]
+    if k % 4 == 0:
+        order = sorted(names, key=lambda n: (len(rsem.sem(n).values) != 4, rng.random()))      # four-valued family first
+    elif k % 4 == 1:
+        order = sorted(names, key=lambda n: (not rsem.sem(n).modal, rng.random()))            # modal logics first
+    elif k % 4 == 2:
+        order = sorted(names, key=lambda n: (rsem.sem(n).modal, rng.random()))                # base logics first
+    else:
+        order = names[:]
+        rng.shuffle(order)
+    order = order[:24] if tier == 'quick' else order
+    out.cover('mixed_orders', '>'.join(order[:6]))
+    for name in order:
+        S = rsem.sem(name)
+        for i in range(3):
+            facts, worlds, consts = mg.random_facts(rng, S)
+            try:
+                m = mg.build(name, facts)
+            except Exception:
+                out.count('built_models_rejected')
+                continue
+            out.count('mixed_process_models')
+            out.case(('mixed', k, name, tuple(facts)), nontrivial=len(facts) >= 2)
+            check_data(name, S, m, out, 'built',
+                       dict(logic=name, facts=mg.facts_to_json(facts), shown=[mg.show_fact(f) for f in facts],
+                            earlier_logics_in_process=order[:order.index(name)]))
 
 
 def frames_data(name, data):
@@ -129,6 +166,8 @@ def check_data(name, S, m, out, source, case):
 
 
 def run_unit(unit, out, tier, seed):
+    if unit.get('logic') is None:
+        return run_mixed(unit, out, tier, seed)
     name = unit['logic']
     if name not in lib.logic_names():
         out.note(f'logic {name} no longer registered')
@@ -177,6 +216,12 @@ def replay(wit):
     name = c['logic']
     S = rsem.sem(name)
     if c.get('source') == 'built':
+        # a witness of a mixed-logic unit: first export a model of each logic that was exported before it in that process
+        for prev in c.get('earlier_logics_in_process') or ():
+            try:
+                mg.build(prev, mg.random_facts(random.Random(0), rsem.sem(prev))[0]).get_data()
+            except Exception:
+                pass
         m = mg.build(name, mg.facts_from_json(c['facts']))
         check_data(name, S, m, out, 'built', c)
     else:
